@@ -481,12 +481,19 @@ func (s *Session) Data(r io.Reader) error {
 	if err != nil {
 		return wrapErr(err)
 	}
+	closed := false
 	defer func() {
 		if err := buf.Remove(); err != nil {
 			s.log.Error("failed to remove buffered body", err)
 		}
 
-		// go-smtp will call Reset, but it will call Abort if delivery is non-nil.
+		// The delivery is forgotten below so Reset called by go-smtp will
+		// not abort it, do it here if the transaction failed before Commit.
+		if !closed {
+			if err := s.delivery.Abort(bodyCtx); err != nil {
+				s.endp.Log.Error("delivery abort failed", err)
+			}
+		}
 		s.cleanSession()
 	}()
 
@@ -502,6 +509,7 @@ func (s *Session) Data(r io.Reader) error {
 		return wrapErr(err)
 	}
 
+	closed = true
 	if err := s.delivery.Commit(bodyCtx); err != nil {
 		return wrapErr(err)
 	}
@@ -536,12 +544,19 @@ func (s *Session) LMTPData(r io.Reader, sc smtp.StatusCollector) error {
 	if err != nil {
 		return wrapErr(err)
 	}
+	closed := false
 	defer func() {
 		if err := buf.Remove(); err != nil {
 			s.log.Error("failed to remove buffered body", err)
 		}
 
-		// go-smtp will call Reset, but it will call Abort if delivery is non-nil.
+		// The delivery is forgotten below so Reset called by go-smtp will
+		// not abort it, do it here if the transaction failed before Commit.
+		if !closed {
+			if err := s.delivery.Abort(bodyCtx); err != nil {
+				s.endp.Log.Error("delivery abort failed", err)
+			}
+		}
 		s.cleanSession()
 	}()
 
@@ -557,6 +572,7 @@ func (s *Session) LMTPData(r io.Reader, sc smtp.StatusCollector) error {
 
 	// We can't really tell whether it is failed completely or succeeded
 	// so always commit. Should be harmless, anyway.
+	closed = true
 	if err := s.delivery.Commit(bodyCtx); err != nil {
 		return wrapErr(err)
 	}
